@@ -23,6 +23,10 @@ pub mod chan;
 pub mod common;
 #[cfg(feature = "c03")]
 pub mod c03;
+#[cfg(feature = "c05")]
+pub mod c05;
+#[cfg(feature = "c06")]
+pub mod c06;
 #[cfg(feature = "c09")]
 pub mod c09;
 #[cfg(feature = "c10")]
@@ -35,5 +39,7 @@ pub mod c12;
 pub mod c13;
 #[cfg(feature = "c16")]
 pub mod c16;
+#[cfg(feature = "c17")]
+pub mod c17;
 #[cfg(feature = "c18")]
 pub mod c18;
